@@ -91,7 +91,7 @@ def plan_for(prop, tier):
                 "Android/Fuchsia fall-back paths are absent from every world; names beginning with 'libc:' are not generated (internal test-only interface)",
                 "under injected faults the oracle is relaxed to: model outcome or a clean failure (false, UTC) - never success with wrong data or a wrong name"],
             rule="part cross: the full product TZDIR(6: unset, empty, valid, nonexistent, trailing slash, relative) x TZ(19: unset, empty, X, :X, ::X, localtime, :localtime, ':', invalid, absolute, fixed-offset, UTC, file:X, :TruncNL, and five values that merely resemble 'localtime') x LOCALTIME(5) "
-                 "x 60 names (relative, nested, absolute, file:-prefixed, empty, ':'-prefixed, UTC/UTC0/fixed and near misses, directory, unreadable, truncated (in the data, in the footer, closing newline missing), leap-second, bad magic, empty file, v1-only, real zone, trailing slash, ./ and ../ components, leading/trailing blanks, non-ASCII, 300-character names, POSIX-TZ look-alikes, case variants, localtime), "
+                 "x 64 names (relative, nested, absolute, file:-prefixed, empty, ':'-prefixed, UTC/UTC0/fixed and near misses, directory, unreadable, truncated (in the data, in the footer, closing newline missing), leap-second, bad magic, empty file, v1-only, real zone, trailing slash, ./ and ../ components, leading/trailing blanks, non-ASCII, 300-character names, POSIX-TZ look-alikes, case variants, embedded NUL characters, localtime), "
                  "each world asking load(name), local_time_zone() and a default-constructed zone, then replayed with a different read chunk size; part random: random worlds of 1-6 ops; part faulted: random worlds with fopen errno faults by open index, "
                  "cookie read errors (EIO/EINTR, persistent or transient) by byte offset, failing seeks, FIFOs and chunk sizes 1..65536. Every world is non-trivial (it resolves at least one name); distinct = distinct (environment, ops, faults, chunk) hashes",
             stages=[
